@@ -61,4 +61,56 @@ inline uint32_t xphase_n(const LweSample *s, const int32_t *key, int n) {
     return (uint32_t)s->b - acc;
 }
 
+// ---- byte-level snapshots (as 64-bit hashes) of every object an evaluation function takes as input
+inline uint64_t hash_words(const void *p, size_t bytes, uint64_t h) {
+    const unsigned char *c = (const unsigned char *)p;
+    size_t i = 0;
+    for (; i + 8 <= bytes; i += 8) { uint64_t w; memcpy(&w, c + i, 8); h = (h ^ w) * 0x9E3779B97F4A7C15ull; h ^= h >> 29; }
+    for (; i < bytes; i++) { h = (h ^ c[i]) * 0x100000001b3ull; }
+    return h;
+}
+inline uint64_t snap_lwe(const LweSample *s, int n, uint64_t h = 7) { h = hash_words(s->a, (size_t)n * 4, h); h = hash_words(&s->b, 4, h); return hash_words(&s->current_variance, 8, h); }
+inline uint64_t snap_tlwe(const TLweSample *s, int N, int k, uint64_t h = 11) {
+    for (int i = 0; i <= k; i++) h = hash_words(s->a[i].coefsT, (size_t)N * 4, h);
+    return hash_words(&s->current_variance, 8, h);
+}
+inline uint64_t snap_tgsw(const TGswSample *g, const TGswParams *P, uint64_t h = 13) {
+    for (int p = 0; p < P->kpl; p++) h = snap_tlwe(&g->all_sample[p], P->tlwe_params->N, P->tlwe_params->k, h);
+    return h;
+}
+inline uint64_t snap_tgswfft(const TGswSampleFFT *g, const TGswParams *P, uint64_t h = 17) {
+    // every back-end stores N/2 complex doubles behind LagrangeHalfCPolynomial::data
+    const int N = P->tlwe_params->N, k = P->tlwe_params->k;
+    for (int p = 0; p < P->kpl; p++) {
+        for (int i = 0; i <= k; i++) { const void *d = *(void *const *)(&g->all_samples[p].a[i]); h = hash_words(d, (size_t)N * 8, h); }
+        h = hash_words(&g->all_samples[p].current_variance, 8, h);
+    }
+    return h;
+}
+inline uint64_t snap_ks(const LweKeySwitchKey *ks, uint64_t h = 19) {
+    const int nout = ks->out_params->n;
+    int hdr[4] = {ks->n, ks->t, ks->basebit, ks->base};
+    h = hash_words(hdr, sizeof hdr, h);
+    for (int i = 0; i < ks->n * ks->t * ks->base; i++) h = snap_lwe(&ks->ks0_raw[i], nout, h);
+    return h;
+}
+inline uint64_t snap_params(const LweParams *a, const TGswParams *g, uint64_t h = 23) {
+    h = hash_words(&a->n, 4, h); h = hash_words(&a->alpha_min, 8, h); h = hash_words(&a->alpha_max, 8, h);
+    int v[6] = {g->l, g->Bgbit, g->Bg, g->halfBg, (int)g->maskMod, g->kpl};
+    h = hash_words(v, sizeof v, h); h = hash_words(&g->offset, 4, h); h = hash_words(g->h, (size_t)g->l * 4, h);
+    const TLweParams *t = g->tlwe_params;
+    h = hash_words(&t->N, 4, h); h = hash_words(&t->k, 4, h); h = hash_words(&t->alpha_min, 8, h); h = hash_words(&t->alpha_max, 8, h);
+    return h;
+}
+inline uint64_t snap_bk(const LweBootstrappingKey *bk, uint64_t h = 29) {
+    for (int i = 0; i < bk->in_out_params->n; i++) h = snap_tgsw(&bk->bk[i], bk->bk_params, h);
+    h = snap_ks(bk->ks, h);
+    return snap_params(bk->in_out_params, bk->bk_params, h);
+}
+inline uint64_t snap_bkfft(const LweBootstrappingKeyFFT *bk, uint64_t h = 31) {
+    for (int i = 0; i < bk->in_out_params->n; i++) h = snap_tgswfft(&bk->bkFFT[i], bk->bk_params, h);
+    h = snap_ks(bk->ks, h);
+    return snap_params(bk->in_out_params, bk->bk_params, h);
+}
+
 } // namespace vf
